@@ -173,6 +173,18 @@ theorem range_step_refines_inv (r : Range) (op : IterOp) (h : r.stop ≤ 256 ∨
     split
     · rfl
     · congr 1; omega
+  | last =>
+    simp only [Range.step, listStep, absRange, List.getLast?_range']
+    refine ⟨?_, trivial, h⟩
+    split
+    · rw [if_neg (by omega)]; congr 1; omega
+    · rw [if_pos (by omega)]
+  | count =>
+    simp only [Range.step, Range.sizeHint, listStep, absRange, List.length_range']
+    refine ⟨?_, trivial, h⟩
+    split
+    · rfl
+    · congr 1; omega
 
 /-- `stop` never exceeds `max start stop`, so with `start ≤ 256` the bound `stop ≤ 256` is kept. -/
 theorem range_step_stop_le (r : Range) (op : IterOp) (hs : r.start ≤ 256) (h : r.stop ≤ 256) :
@@ -220,5 +232,6 @@ theorem all_iter_refines (n : Nat) (hn : n ≤ 8) (ops : List IterOp) :
 /-! Non-vacuity (tests) -/
 example : moveOfBytes [101, 50, 45, 101, 52] = some ⟨12, 28, none⟩ := by decide
 example : Range.run ⟨0, 8⟩ [.next, .nextBack, .nth 2, .nthBack 1, .sizeHint] = [some 0, some 7, some 3, some 5, some 1] := by decide
+example : Range.run ⟨0, 8⟩ [.last, .nth 8, .last, .count] = [some 7, none, none, some 0] := by decide
 
 end Chess.Props.C19
